@@ -119,7 +119,8 @@ func checkWeb(c *vk.Ctx, shs []enum.Shape, v int, grans []Gran) {
 			}
 			raw, ok := extractJSON(body)
 			if !ok {
-				c.Count("unparsed/flamegraph", 1)
+				// the page was served, but the stack data its script reads is not in it
+				c.Violationf("web/no-stack-data", cs, "GET %s: status 200, but the page carries no stack data: %.300s", url, body)
 				continue
 			}
 			var generic any
